@@ -33,7 +33,11 @@ type hookLog struct {
 }
 
 func (l *hookLog) add(s string) { l.mu.Lock(); l.ev = append(l.ev, s); l.mu.Unlock() }
-func (l *hookLog) get() []string { l.mu.Lock(); defer l.mu.Unlock(); return append([]string{}, l.ev...) }
+func (l *hookLog) get() []string {
+	l.mu.Lock()
+	defer l.mu.Unlock()
+	return append([]string{}, l.ev...)
+}
 
 func (h *scriptHook) ID() string { return h.name }
 func (h *scriptHook) Provides(b byte) bool {
